@@ -182,6 +182,7 @@ type C19Event struct {
 type C19EffectCase struct {
 	Events []C19Event `json:"events"`         // event 0 = initializationOptions, others = didChangeConfiguration
 	Root   bool       `json:"root,omitempty"` // the probe directory is the workspace folder (root journal main.journal)
+	Push   bool       `json:"push,omitempty"` // the client has no workspace/configuration capability: settings arrive inside didChangeConfiguration
 }
 
 type c19Settings struct {
@@ -375,7 +376,7 @@ const c19FmtText = "2024-01-01 shop\n  short:a  1 EUR\n  much:longer:account:nam
 const c19DiagText = "account known:acct\ncommodity 1000.00 EUR\n\n2024-01-01 shop\n    known:acct  5 EUR\n    unknown:acct  -4 XYZ\n"
 const c19InlineText = "2024-01-01 shop\n    expenses:food  5 EUR\n    assets:cash\n\n2024-02-01 shop\n\n"
 
-func newC19Probe(init any, root bool) (*c19Probe, error) {
+func newC19Probe(init any, root, push bool) (*c19Probe, error) {
 	wsSeq++
 	dir := filepath.Join(scratch(), fmt.Sprintf("c19-%d", wsSeq))
 	_ = os.MkdirAll(dir, 0o755)
@@ -398,7 +399,7 @@ func newC19Probe(init any, root bool) (*c19Probe, error) {
 	p.uri = "file://" + filepath.Join(dir, "probe.journal")
 	p.fmtURI = "file://" + filepath.Join(dir, "fmt.journal")
 	p.mainURI = w("main.journal", "include chain0.journal\ninclude size0.journal\naccount \n")
-	popts := lspx.Options{InitOptions: init, SupportsConfiguration: true}
+	popts := lspx.Options{InitOptions: init, SupportsConfiguration: !push}
 	if root {
 		popts.RootDir = dir
 	}
@@ -692,7 +693,7 @@ func c19EffectCheck(c *C19EffectCase) ([]ev.Discrepancy, bool) {
 		}
 	}
 	apply(c.Events[0])
-	p, err := newC19Probe(c.Events[0].payload(), c.Root)
+	p, err := newC19Probe(c.Events[0].payload(), c.Root, c.Push)
 	if err != nil {
 		return []ev.Discrepancy{ev.D("c19.total.initialize", "%v", err)}, false
 	}
@@ -721,8 +722,17 @@ func c19EffectCheck(c *C19EffectCase) ([]ev.Discrepancy, bool) {
 	ds = append(ds, p.measure(want, "after initialize with "+string(mustJSON(c.Events[0].payload())))...)
 	for i := 1; i < len(c.Events) && len(ds) == 0; i++ {
 		apply(c.Events[i])
-		p.h.C.SetConfig(c.Events[i].payload())
-		if err := p.h.ChangeConfiguration(); err != nil {
+		var cerr error
+		if c.Push {
+			// through JSON, as it would arrive
+			var settings any
+			_ = json.Unmarshal(mustJSON(c.Events[i].payload()), &settings)
+			cerr = p.h.PushConfiguration(settings)
+		} else {
+			p.h.C.SetConfig(c.Events[i].payload())
+			cerr = p.h.ChangeConfiguration()
+		}
+		if err := cerr; err != nil {
 			return append(ds, ev.D("c19.total.change", "%v", err)), nontrivial
 		}
 		if err := p.h.Quiesce(); err != nil {
@@ -834,13 +844,13 @@ func TestC19Total(t *testing.T) {
 func TestC19Effect(t *testing.T) {
 	defer recC19.Flush()
 	rapid.Check(t, func(t *rapid.T) {
-		c := &C19EffectCase{Root: rapid.Bool().Draw(t, "root")}
+		c := &C19EffectCase{Root: rapid.Bool().Draw(t, "root"), Push: rapid.IntRange(0, 3).Draw(t, "push") == 0}
 		n := rapid.IntRange(1, 4).Draw(t, "nevents")
 		for i := 0; i < n; i++ {
 			c.Events = append(c.Events, genC19Event(t))
 		}
 		ds, nt := c19EffectCheck(c)
-		recC19.Case(nt, mustJSON(c), "kind:structured", fmt.Sprintf("events:%d", n), fmt.Sprintf("workspace-root:%v", c.Root))
+		recC19.Case(nt, mustJSON(c), "kind:structured", fmt.Sprintf("events:%d", n), fmt.Sprintf("workspace-root:%v", c.Root), fmt.Sprintf("settings-pushed:%v", c.Push))
 		if nt && recC19.WantSample() {
 			var ps []any
 			for _, e := range c.Events {
